@@ -9,7 +9,8 @@
  *   fresh <custom>                         new builder (custom=1: wrapper emitter+allocator, 0: flatcc defaults)
  *   opt <cachelimit> <maxlevel>
  *   reset <reduce>
- *   build <flags> <ident|-> <blockalign> <style> <tree>      flags: 1 with_size, 2 no clustering, 4 direct create_buffer root
+ *   build <flags> <ident|-> <blockalign> <style> <tree>      flags: 1 with_size, 2 no clustering, 4 direct create_buffer root,
+ *                                                            8 root table's children created before start_buffer
  *   partial <cut> <flags> <ident|-> <blockalign> <style> <tree>   stop after <cut> API calls, leaving everything open
  *   faulta <k> <rep> ... / faulte <k> <rep> ...   like build; the k-th (and, rep=1, every later) alloc / emit call fails
  *   uenter <size>                           enter a user frame and leave it open
@@ -108,6 +109,9 @@ static flatcc_builder_ref_t created[4096]; static int ncreated;
 static flatcc_builder_ref_t remember(flatcc_builder_ref_t r) { if (ncreated < 4096) created[ncreated++] = r; return r; }
 
 static flatcc_builder_ref_t build_val(node_t *x, int style);
+/* flags & 8: the root table's children are created BEFORE the top-level buffer is started (doc/builder.md: "allowed at the
+ * top level", the `X_create_as_root(B, child_ref, ...)` pattern); the buffer is started just before the root table itself */
+static node_t *pre_root; static const char *pre_idp; static int pre_block_align, pre_bflags;
 
 static void add_field(node_t *x, int id, flatcc_builder_ref_t ref)
 {
@@ -214,7 +218,8 @@ static flatcc_builder_ref_t build_val(node_t *x, int style)
         free(refs);
         break; }
     case 'T': {
-        int cnt = 0;
+        int cnt = 0; int outer_style = style;
+        if (x == pre_root) style = 0;
         flatcc_builder_ref_t *refs = calloc((size_t)x->n + 1, sizeof(*refs));
         flatcc_builder_union_vec_ref_t *uvs = calloc((size_t)x->n + 1, sizeof(*uvs));
         for (i = 0; i < x->n; ++i) if (x->kid_id[i] >= cnt) cnt = x->kid_id[i] + 1;
@@ -233,8 +238,9 @@ static flatcc_builder_ref_t build_val(node_t *x, int style)
             }
         } else if (style == 0) {
             for (i = 0; i < x->n; ++i) {
-                if (x->kid[i]->k == 'W') uvs[i] = build_uvec(x->kid[i], style); else refs[i] = build_val(x->kid[i], style);
+                if (x->kid[i]->k == 'W') uvs[i] = build_uvec(x->kid[i], outer_style); else refs[i] = build_val(x->kid[i], outer_style);
             }
+            if (x == pre_root) { API; if (flatcc_builder_start_buffer(B, pre_idp, (uint16_t)pre_block_align, pre_bflags)) FAILJ; }
             API; if (flatcc_builder_start_table(B, cnt)) FAILJ;
             for (i = 0; i < x->n; ++i) {
                 if (x->kid[i]->k == 'W') { API; if (flatcc_builder_table_add_union_vector(B, x->kid_id[i], uvs[i])) FAILJ; }
@@ -295,6 +301,8 @@ static int run_build(int flags, const char *ident, int block_align, int style, n
     if (strcmp(ident, "-")) { h_unhex(ident, (uint8_t *)id); idp = id; }
     ncreated = 0; api_calls = 0;
     flatcc_builder_set_vtable_clustering(B, !(flags & 2));
+    pre_root = ((flags & 8) && root->k == 'T') ? root : 0; pre_idp = idp; pre_block_align = block_align;
+    pre_bflags = (flags & 1) ? flatcc_builder_with_size : 0;
     if ((j = setjmp(cut_jmp))) return j;
     if ((flags & 4) && root->k == 'u') {
         flatcc_builder_ref_t r;
@@ -304,7 +312,7 @@ static int run_build(int flags, const char *ident, int block_align, int style, n
                 (flags & 1) ? flatcc_builder_with_size : 0);
     } else {
         flatcc_builder_ref_t r;
-        API; if (flatcc_builder_start_buffer(B, idp, (uint16_t)block_align, (flags & 1) ? flatcc_builder_with_size : 0)) FAILJ;
+        if (!pre_root) { API; if (flatcc_builder_start_buffer(B, idp, (uint16_t)block_align, (flags & 1) ? flatcc_builder_with_size : 0)) FAILJ; }
         r = build_val(root, style);
         API; *out = flatcc_builder_end_buffer(B, r);
     }
